@@ -579,6 +579,11 @@ fn attr_grid(form: i64, p: i64, s: String) -> String {
     }
 }
 
+#[component]
+fn Wrapper(children: Children) -> impl IntoView {
+    view! { <section lang="en">{children()}</section> }
+}
+
 // ------------------------------------------------------------------ view! with dynamic slots
 fn template_view(k: i64, s: String) -> String {
     match k {
@@ -604,6 +609,24 @@ fn template_view(k: i64, s: String) -> String {
         10 => view! { <my-element data-payload=s>"slot"</my-element> }.to_html(),
         11 => view! { <title>{s}</title> }.to_html(),
         12 => view! { <p>{move || s.clone()}</p> }.to_html(),
+        // the other attribute forms of the macro: style:prop, (name, value) tuples, class arrays
+        14 => view! { <span style:color=s>"x"</span> }.to_html(),
+        15 => view! { <span style=("background", s)>"x"</span> }.to_html(),
+        16 => view! { <div class=("t\"<x", true) class:plain=true class=(["a&b", "c\"d"], true) class=("off", false) class=s></div> }.to_html(),
+        // attr: on a component is handed to the root element of what it renders (add_any_attr)
+        17 => {
+            let t = s.clone();
+            let u = s.clone();
+            view! { <Wrapper attr:title=s attr:class=t attr:data-w=u>"x"</Wrapper> }.to_html()
+        }
+        // spread
+        18 => {
+            let t = s.clone();
+            let attrs = view! { <{..} title=s data-k=t/> };
+            view! { <div {..attrs}>"x"</div> }.to_html()
+        }
+        // a fragment at the root of the view!
+        19 => view! { "a<b" {s} <p>"x"</p> }.to_html(),
         _ => {
             // scope class given by an expression; the nested elements take the macro's inert path
             let cls: &'static str = Box::leak(s.into_boxed_str());
@@ -767,8 +790,10 @@ fn island(c: &Sexp) -> String {
     let label = text(c.at(2));
     let props = serde_json::to_string(&serde_json::json!({ "label": label })).expect("json");
     let inner = (span().child(label), IslandChildren::new(view(c.at(3))));
+    // modes 3..5: an island without props (no data-props attribute)
+    let props = if c.at(1).num() >= 3 { String::new() } else { props };
     let v = (Island::new("Counter", inner).with_props(props), p().child("after"));
-    match c.at(1).num() {
+    match c.at(1).num() % 3 {
         0 => v.to_html(),
         1 => futures::executor::block_on(v.to_html_stream_in_order().collect::<String>()),
         _ => futures::executor::block_on(v.to_html_stream_out_of_order().collect::<String>()),
@@ -848,6 +873,14 @@ fn meta_node(v: &Sexp) -> AnyView {
     let o = |i: usize| oco(rep + i as i64, st(i));
     let t = |i: usize| tprop(rep + i as i64, st(i));
     match (v.at(1).num(), v.at(2).num()) {
+        (0, 1) => {
+            let pre = st(1);
+            view! { <Title text=t(0) formatter=move |t: String| format!("{pre}{t}")/> }.into_any()
+        }
+        (0, 2) => {
+            let pre = st(1);
+            view! { <Title formatter=move |t: String| format!("{pre}{t}")/> }.into_any()
+        }
         (0, _) => view! { <Title text=t(0)/> }.into_any(),
         (1, 0) => view! { <Meta name=t(0) content=t(1)/> }.into_any(),
         (1, 1) => view! { <Meta property=t(0) content=t(1)/> }.into_any(),
